@@ -295,6 +295,7 @@ def bfs(root, depth, check_state, first_ops=None, res=None, menu=OPS):
     v0 = key_view(bytes(w0.key))
     seen.add(canon(v0, w0.model, 0))
     transitions = traces = 0
+    deepest = []
     for op in (first_ops if first_ops is not None else menu):
         frontier.append([op])
     while frontier:
@@ -320,6 +321,8 @@ def bfs(root, depth, check_state, first_ops=None, res=None, menu=OPS):
                          'history %s on %s: enabled operation raised %r' % (hist, root, failed))
             continue
         check_state(w, hist)
+        if len(hist) >= len(deepest):
+            deepest = hist
         try:
             c = canon(key_view(bytes(w.key)), w.model, len(w.held))
         except Exception:
@@ -330,4 +333,6 @@ def bfs(root, depth, check_state, first_ops=None, res=None, menu=OPS):
         if len(hist) < depth:
             for op in menu:
                 frontier.append(hist + [op])
+    if res is not None and deepest:
+        res.samples.append({'root': root, 'history': list(deepest), 'distinct_states_in_unit': len(seen)})
     return seen, transitions, traces
